@@ -220,7 +220,7 @@ def run_group(comp, g, meta, workdir, tier, backend=None, secondary=False):
         return res
     base = os.path.join(workdir, hname)
     defs = ' '.join('-D' + d for d in comp.defines)
-    tmo = g.timeout or (300 if tier == 'quick' else 1800)
+    tmo = g.timeout or (600 if tier == 'quick' else 1800)
     if meta.get('missing_contracts') or meta.get('dropped_contracts'):
         tmo = min(tmo, 120)   # some loop has probably lost its contract: do not wait long before the bounded fall-back
     if secondary:
